@@ -42,6 +42,31 @@ CLAIMS['C10'] = dict(
    text='Decides structural conditions behind memory-limit independence of aggregation and join, for all paths: (W1) no agg.Function Consume/ConsumeAsPartial (22 methods) nor groupby.Aggregator.Consume retains its argument, keys or anything derived without a copy; (K1) the string indexing the group table depends on both the flattened key bytes and keyTypes.Lookup(types); (W3) in join, groupby, spill, fuse, sort, merge and zio a value obtained from Read/Peek is neither used after the next Read on the same reader nor allowed to escape without a copy (loop-carried values included); (S3) spill.peeker.read copies nextRecord before advancing the file; (P1) no partial form is a panicking stub. Does not decide the aggregates\' arithmetic, partial composition, early release on sorted input or join semantics.',
    note='zio.Reader contract (value valid until the next Read on the same reader); reader identity by receiver expression; calls leaving the package do not retain arguments.',
    ref='DESIGN.md §2 C10')
+CLAIMS['C12'] = dict(
+   technique='who-may-call tables over resolved call sites, lock-state dataflow, critical-section atomicity, dominance / avoid-reachability protocol checks, backward-slice provenance of commit ids',
+   text='Decides, for all paths, the protocol conditions that linearizability of lake metadata updates rests on: (W1) the journal entry at+1 is the only commit point and the sets of writers of PutIfNotExists, CommitAt and journal entry objects are closed; (P1) in journal.Store.commit the position and the constraint are read in one read-locked section, every attempt re-loads first, a lost race (os.IsExist) leads to another attempt or an error but never to a nil return, and success invalidates the cached position; (P2) Branch.commit performs tip lookup -> constructor -> commit object -> branch update, with a constraint comparing against the parent captured before config.Commit is overwritten and removal of the commit object on every failure path; (P3) every constructor passed to Branch.commit builds snapshots, paths, patches and the new parent from the retry\'s parent, never from the handle\'s stale Commit; (L1) journal.Store lock discipline; (N1) names registered last with cleanup. Does not decide linearizability itself, non-atomic file puts, or inter-process cache coherence.',
+   note='PutIfNotExists is atomic where supported; closures run under the lock state of the call that invokes them.',
+   ref='DESIGN.md §2 C12')
+CLAIMS['C13'] = dict(
+   technique='who-may-call over resolved call sites, freshness (ownership) analysis of snapshot mutator receivers across two caller levels, constructor-only field writes',
+   text='Decides structural conditions of commit immutability and reader isolation: (W1) storage deletions occur only at six frozen sites (vacuum, aborts of never-committed writes, lost-race commit object, pool removal), and Object.Remove / commits.Store.Remove only from their single legitimate callers; (R1) no function of the kernel, optimizer, lake scan operators, vector runtime or lake/data calls a name->commit resolver (witness: the semantic analyzer\'s compile-time resolutions); (M1) every Snapshot mutator call acts on a snapshot that is fresh in that computation, never on one obtained from the store\'s cache; (M2) a lister\'s snapshot is written only at construction. Does not decide result constancy, cross-process snapshot files or vacuum semantics.',
+   note='Interface calls on storage.Engine are resolved by method; freshness is tracked through phis, locals and up to two caller levels.',
+   ref='DESIGN.md §2 C13')
+CLAIMS['C14'] = dict(
+   technique='edge-dominance guards, constant-argument checks, error-flow dominance of commits by writer Close, resolved-callee stable-sort check',
+   text='Decides structural conditions of the loaded-minus-deleted model: (V1) Vacuumable offers an object only on the false edge of Exists() on the snapshot of the requested commit; (N1) comparators on the lake path are built with nullsMax=true; (D1) no store to Deleter.KeyPruner; (O1) every commit is reached only after each writer Close / CreateVector returned nil, including calls in loops and inside constructors; (S1) the lister\'s object sort and the comparator\'s index sort are stable. Does not decide multiset equality, scan order or metadata accuracy.',
+   note='Shares rules with C16 and C17 (decided once).',
+   ref='DESIGN.md §2 C14')
+CLAIMS['C15'] = dict(
+   technique='field read/write-set agreement between view and mutator methods of a type, provenance of commit ids, error-flow dominance',
+   text='Decides structural conditions of merge/revert: (K1) each view method of commits.Patch reads every state field the corresponding mutators write, computed from the current method bodies and their same-type helpers; (P3) merge and revert objects are built from the retry\'s parent; (E1) errors of Diff / PatchOfPath / Patch.Revert are returned before a commit object can be produced, and the object is written before the branch moves. The K1 violation found on the original tree (views ignored deletedObjects: double-delete merge corrupts the parent) was reproduced and fixed. Does not decide the set algebra of merge and revert.',
+   note='Field sets are computed over Patch methods and their same-type helpers.',
+   ref='DESIGN.md §2 C15')
+CLAIMS['C17'] = dict(
+   technique='must-precede / must-pass-through (dominance and avoid-reachability) on resolved call sites, error-flow dominance, who-may-call',
+   text='Decides the order in which durable effects are issued, for all paths: commit object before branch pointer (O1); data objects and vectors durable before the commit that references them (O2); journal entry before HEAD, with HEAD written only by CommitAt and Create (O3); lake magic last and only after the pools store, HEAD before TAIL (O4); pool directory before name with cleanup, name before data on drop (O5); HEAD treated as a hint (H1 — violated on today\'s tree: genuine known finding, reproduced). Does not decide what a reopened lake sees after a torn non-atomic put, i.e. crash states themselves.',
+   note='Program order of storage calls equals durability order.',
+   ref='DESIGN.md §2 C17')
 NA = {}
 for i in range(1, 21):
     pid = 'C%02d' % i
